@@ -7,8 +7,9 @@
 (* Kind selects the API surface: "sset" static_set, "fset" flat_set, "fmset" flat_multiset.            *)
 (*                                                                                                     *)
 (* The two objects interact only through swap.  To keep the export proportional to what is being       *)
-(* asked, the full operation surface of an object is offered while the OTHER object is empty; when      *)
-(* both are non-empty only insert(copy) (which builds every pair of sets) and the swaps are offered.    *)
+(* asked, the full operation surface of an object is offered while the OTHER object is empty; next to   *)
+(* a non-empty object only range construction from an ascending sequence (which builds every pair of    *)
+(* sets in one call) and the swaps are offered.                                                          *)
 (* Constructors are offered on an empty object only (they discard the previous value anyway).           *)
 EXTENDS SetOps, TLC, Json
 
@@ -54,7 +55,7 @@ FullSurface(o) ==
           ELSE {})
 
 LightSurface(o) ==
-    {C("insert_copy", [X0 EXCEPT !.v = v]) : v \in Univ}
+    (IF Len(obj[o]) = 0 THEN {C("ctor_range", [X0 EXCEPT !.xs = xs]) : xs \in AscSeqs} ELSE {})
     \cup {C(op, [X0 EXCEPT !.src = Other(o)]) : op \in SwapOps}
 
 MultiSurface(o) ==
